@@ -94,6 +94,18 @@ Theorem sma_schedule :
 Proof. exact sma_schedule_proof. Qed.
 Print Assumptions sma_schedule.
 
+(* the fuel of the model is not a hidden cut: a run that ends (returns, raises IndexError or
+   starves the stream) with some fuel ends identically with any larger fuel, so sma_schedule
+   speaks about every terminating run; holds for every instance of the number record *)
+Theorem fit_image_fuel_independent_thm :
+  forall (N : num) lin step minsma maxsma maxrit top_test f f' sma0 gsma fix_all s r calls,
+  (f <= f')%nat ->
+  fit_image N lin step minsma maxsma maxrit top_test f sma0 gsma fix_all s = (r, calls) ->
+  r <> Fuel N ->
+  fit_image N lin step minsma maxsma maxrit top_test f' sma0 gsma fix_all s = (r, calls).
+Proof. exact fit_image_fuel_independent. Qed.
+Print Assumptions fit_image_fuel_independent_thm.
+
 (* the same without the range premises: every returned sma is sma0, or an outward one
    (above sma0, below a truthy maxsma), or an inward one (above max(minsma, 1/2), below
    sma0), or the central one (0, only when minsma = 0) *)
